@@ -64,6 +64,16 @@ def check_gen(name, obs, checks, qmod, **kw):
     return j
 
 
+def pin_gen(name, obs, checks, qmod, **kw):
+    """Mode C: TLC-enumerated pin situations (Gen_Pin.tla), every move played."""
+    j = {"type": "gen", "name": name, "gen_spec": "Gen_Pin", "driver": "board", "spec": "Trace_Board", "checks": checks,
+         "args": {"common": {"obs": ",".join(obs), "gen-play": "all"}},
+         "params": {"quick": {"gencfg": {"mod": qmod, "rem": 0, "kmod": 8, "krem": 0}, "workers": 8},
+                    "thorough": {"gencfg": {"mod": 4, "rem": 0, "kmod": 1, "krem": 0}, "workers": 16, "xmx": "10g", "timeout": 3600}}}
+    j.update(kw)
+    return j
+
+
 def board_job(name, obs, checks, q, t, variant="release", extra_common=None, **kw):
     common = {"obs": ",".join(obs)}
     if extra_common:
@@ -79,6 +89,7 @@ PROPS = {
         "rule": "states visited by seeded histories (corpus, curated, 960/DFRC starts, constructed builder states; random walks, full subtrees below curated roots); an observation is non-trivial when the position has at least one legal move",
         "assumptions": BOARD_ASSUME,
         "jobs": [
+            pin_gen("pin-cases", ["gen"], ["C01"], 20, seed_offset=41),
             ep_gen("ep-cases", ["gen"], ["C01"], 50, seed_offset=3),
             castle_gen("castling-cases", ["gen"], ["C01"], 40),
             chess_model("model-gen", ["WellFormed", "GenExact"], [], MCQ, MCT),
@@ -100,6 +111,7 @@ PROPS = {
         "rule": "every logged state after reset / play / null move; rebuild through the builder must be == ; transposition pairs",
         "assumptions": BOARD_ASSUME,
         "jobs": [
+            pin_gen("pin-cases", [], ["C03"], 20, seed_offset=43),
             check_gen("check-geometries", [], ["C03"], 40, seed_offset=5),
             ep_gen("ep-cases", ["rebuild"], ["C03", "C09"], 50, seed_offset=23),
             chess_model("model-derived", ["DerivedOK", "CheckersAreAttackers", "FreshEqual"], [], MCQ, MCT),
@@ -111,6 +123,7 @@ PROPS = {
         "rule": "all 64*64*7 move values swept through is_legal on every visited state; non-trivial = state with a legal move",
         "assumptions": BOARD_ASSUME,
         "jobs": [
+            pin_gen("pin-cases", ["islegal"], ["C04"], 30, seed_offset=47),
             ep_gen("ep-cases", ["islegal"], ["C04"], 80, seed_offset=31),
             castle_gen("castling-cases", ["islegal"], ["C04"], 60, seed_offset=29),
             chess_model("model-islegal", ["IsLegalOK"], [], dict(MCQ, sweep=2), dict(MCT, sweep=2, max_roots=40)),
